@@ -39,6 +39,20 @@ theorem StepsBy.inv {cfg : Cfg N K} (hs : SumOK cfg) {ro fo} {a : N} {s t : St N
   | refl => exact h0
   | tail l _ _ ih => exact inv_step hs ih l
 
+theorem reachable_run {cfg : Cfg N K} {s0 : St N K} (ls : List (Label N K)) :
+    ∀ s, Reachable cfg s0 s → Reachable cfg s0 (run cfg ls s) := by
+  induction ls with
+  | nil => intro s h; exact h
+  | cons l ls ih => intro s h; exact ih _ (.step l h)
+
+theorem stepsBy_run {cfg : Cfg N K} {a : N} (ls : List (Label N K)) (hl : ∀ l ∈ ls, actor l = a) :
+    ∀ s0 s, StepsBy cfg a s0 s → StepsBy cfg a s0 (run cfg ls s) := by
+  induction ls with
+  | nil => intro s0 s h; exact h
+  | cons l ls ih =>
+    intro s0 s h
+    exact ih (fun l' h' => hl l' (List.mem_cons_of_mem _ h')) s0 _ (.tail l (hl l List.mem_cons_self) h)
+
 /-! ### frame: what a step cannot do -/
 
 theorem step_failed_other (cfg : Cfg N K) (l : Label N K) (s : St N K) (m : N) (hm : m ≠ actor l) :
